@@ -415,12 +415,18 @@ pub fn run(ctx: &Ctx, rep: &mut Report) {
     if rep.failures.is_empty() {
         run_transports(ctx, rep);
     }
+    if rep.failures.is_empty() {
+        enumerate(ctx, rep, "client-threads-on-shared-locks", threads_family(ctx).into_iter(), |c| run_threads_case(ctx, c));
+    }
 }
 
 pub fn replay(ctx: &Ctx, engine: &str, case: &J) -> Result<Option<(String, String)>, String> {
     setup_process();
     if engine == "long-lines-in-a-child-process" {
         return replay_guarded::<ChildCase>(ctx, case, |c| run_child_case(ctx, c));
+    }
+    if engine == "client-threads-on-shared-locks" {
+        return replay_guarded::<ThreadsCase>(ctx, case, |c| run_threads_case(ctx, c));
     }
     if engine == "transports-tcp-pipelines-and-segments" {
         let srv = TServer::start(ctx);
@@ -686,6 +692,114 @@ fn pipe_family() -> Vec<PipeCase> {
     for (n, len) in [(1u32, 3u32), (3, 3), (1, 3000), (2, 70_000)] {
         for pm in [300u32, 500, 900, 990] {
             v.push(PipeCase { n, split_permille: Some(pm), value_len: len });
+        }
+    }
+    v
+}
+
+
+// ------------------------------------------------------------------------------------------------
+// commands of different clients that take the same locks, on real threads: the node keeps serving
+// ------------------------------------------------------------------------------------------------
+
+#[derive(Clone, Debug, Serialize, Deserialize)]
+pub struct ThreadsCase {
+    /// one program per client thread; `{i}` is replaced by the round number
+    pub programs: Vec<Vec<String>>,
+    pub rounds: u32,
+}
+
+/// Runs the programs on one thread each, round after round. A node that wedges is recognised by progress, not by speed:
+/// NO thread completes a single command for 30 s (each command takes microseconds), and a fresh client's `get` started
+/// after that does not come back either.
+pub fn run_threads_case(ctx: &Ctx, case: &ThreadsCase) -> Outcome {
+    use std::sync::atomic::{AtomicBool, AtomicU64, Ordering};
+    use std::sync::Arc;
+    crate::interpose::set_sleep_hook(None);
+    let dir = ctx.fresh_dir();
+    let mut node = Node::boot_single(&dir);
+    let mut admin = Session::new();
+    admin.auth(&node);
+    admin.send(&node, "create-db probe ptok");
+    admin.send(&node, "create-db other-db otok");
+    node.pump();
+    crate::transport::run_services_in_background(&mut node);
+    let progress: Vec<Arc<AtomicU64>> = case.programs.iter().map(|_| Arc::new(AtomicU64::new(0))).collect();
+    let done: Vec<Arc<AtomicBool>> = case.programs.iter().map(|_| Arc::new(AtomicBool::new(false))).collect();
+    for (t, prog) in case.programs.iter().enumerate() {
+        let (dbs, prog, rounds, progress, done) = (node.dbs.clone(), prog.clone(), case.rounds, progress[t].clone(), done[t].clone());
+        std::thread::spawn(move || {
+            let (mut client, mut rx) = nundb::bo::Client::new_empty_and_receiver();
+            nundb::process_request::process_request(&format!("auth {} {}", crate::node::USER, crate::node::PWD), &dbs, &mut client);
+            nundb::process_request::process_request("use-db probe ptok", &dbs, &mut client);
+            for i in 0..rounds {
+                for l in prog.iter() {
+                    let _ = std::panic::catch_unwind(std::panic::AssertUnwindSafe(|| nundb::process_request::process_request(&l.replace("{i}", &format!("t{}r{}", t, i)), &dbs, &mut client)));
+                    while let Ok(Some(_)) = rx.try_next() {}
+                    progress.fetch_add(1, Ordering::SeqCst);
+                }
+            }
+            done.store(true, Ordering::SeqCst);
+        });
+    }
+    let mut out = Outcome::ok(true);
+    out.classes.push("real-threads");
+    let mut last: Vec<u64> = progress.iter().map(|p| p.load(Ordering::SeqCst)).collect();
+    let mut last_change = std::time::Instant::now();
+    let mut wedged = false;
+    loop {
+        if done.iter().all(|d| d.load(Ordering::SeqCst)) {
+            break;
+        }
+        crate::transport::real_sleep(std::time::Duration::from_millis(50));
+        let now: Vec<u64> = progress.iter().map(|p| p.load(Ordering::SeqCst)).collect();
+        if now != last {
+            last = now;
+            last_change = std::time::Instant::now();
+        } else if last_change.elapsed() > std::time::Duration::from_secs(30) {
+            wedged = true;
+            break;
+        }
+    }
+    if wedged {
+        // a fresh client
+        let served = Arc::new(AtomicBool::new(false));
+        let (dbs, served2) = (node.dbs.clone(), served.clone());
+        std::thread::spawn(move || {
+            let (mut client, _rx) = nundb::bo::Client::new_empty_and_receiver();
+            nundb::process_request::process_request("use-db other-db otok", &dbs, &mut client);
+            nundb::process_request::process_request("get anything", &dbs, &mut client);
+            served2.store(true, Ordering::SeqCst);
+        });
+        crate::transport::real_sleep(std::time::Duration::from_secs(10));
+        if !served.load(Ordering::SeqCst) {
+            let words: Vec<String> = case.programs.iter().map(|p| word_of(p.first().map(|s| s.as_str()).unwrap_or(""))).collect();
+            out.fail = Some((format!("C10|node-wedged|{}", words.join("+")), format!("client threads running {:?} stopped making progress after {:?} commands each; 30 s later a fresh client's use-db + get has not come back after another 10 s: the node serves nobody", case.programs, last)));
+        }
+        // (the stuck threads hold the node's locks: nothing of it can be dropped)
+        std::mem::forget(node);
+        return out;
+    }
+    out.counters.push(("commands", last.iter().sum()));
+    drop(node);
+    ctx.drop_dir(&dir);
+    out
+}
+
+fn threads_family(ctx: &Ctx) -> Vec<ThreadsCase> {
+    let rounds = ctx.amount(4000, 100_000);
+    let progs: Vec<Vec<&str>> = vec![
+        vec!["snapshot false probe"],
+        vec!["create-db x{i} tok"],
+        vec!["snapshot false probe|other-db"],
+        vec!["set k {i}", "get k"],
+        vec!["use-db other-db otok", "use-db probe ptok"],
+        vec!["keys *", "debug list-dbs"],
+    ];
+    let mut v = vec![];
+    for a in 0..progs.len() {
+        for b in (a + 1)..progs.len() {
+            v.push(ThreadsCase { programs: vec![progs[a].iter().map(|s| s.to_string()).collect(), progs[b].iter().map(|s| s.to_string()).collect()], rounds });
         }
     }
     v
